@@ -484,30 +484,20 @@ func (e *Env) Close() {
 		}
 	}()
 	atomic.StoreInt32(&formatLogs, 0)
-	for _, p := range e.SW.Peers().List() {
-		e.SW.StopPeerGracefully(p)
-	}
+	// (a leaked reactor mutex, already reported, may block any of these for ever)
 	done := make(chan struct{})
 	go func() {
 		defer close(done)
 		defer func() { recover() }()
-		t := time.Now()
-		lap := func(what string) {
-			if os.Getenv("C18_DEBUG") != "" {
-				fmt.Fprintln(os.Stderr, "  close:", what, time.Since(t))
-			}
-			t = time.Now()
+		for _, p := range e.SW.Peers().List() {
+			e.SW.StopPeerGracefully(p)
 		}
 		e.BC.Stop()
-		lap("bc")
 		e.TxR.Stop()
-		lap("txr")
 		e.EvR.Stop()
-		lap("evr")
 		if e.Cons.IsRunning() {
 			e.Cons.Stop()
 		}
-		lap("cons")
 	}()
 	select {
 	case <-done:
